@@ -350,6 +350,13 @@ impl Engine for CrashEngine {
                     if let Some(msg) = class.strip_prefix("panic:") {
                         out.bump(&format!("entry.{name}.panic"));
                         Verdict::Bad("panic", msg.to_string(), json!({"canary": canary}), false)
+                    } else if let Some(d2) = canary.strip_prefix("thread_echo_diff:") {
+                        Verdict::Bad(
+                            "thread-history-dependence",
+                            "the same input, repeated at once on a brand-new thread of the same process, gives a different outcome than on the long-lived thread".into(),
+                            json!({"long_lived_thread": {"outcome": class, "digest": digest}, "new_thread_digest": d2}),
+                            true,
+                        )
                     } else if let Some(names) = canary.strip_prefix("canary_drift:") {
                         Verdict::Bad("canary-drift", format!("canary outputs changed after this delivery: {names}"), json!({"drifted": names, "outcome": class}), true)
                     } else {
